@@ -780,6 +780,11 @@ func (e *Engine) builtin(b *ssa.Builtin, args []Val) Val {
 		return nil
 	case "print", "println":
 		return nil
+	case "ssa:wrapnilchk":
+		if p, ok := args[0].(Ptr); ok && p.O == nil && p.SD == nil {
+			e.rtPanic("value method called using nil pointer")
+		}
+		return args[0]
 	case "StringData":
 		s := args[0].(Str)
 		return Ptr{SD: &s}
